@@ -366,6 +366,9 @@ EFIELDS = [
 EFIELDS_B = [("&'a str", "svp(rng)", "json!({v})"), ("Option<&'a str>", "osvp(rng)", "json!({v})")]
 
 
+RUST_KEYWORDS = {"type", "in", "match", "where", "ref", "move", "use", "fn", "loop", "as", "mod", "let", "box", "try", "async", "dyn", "struct", "enum", "impl", "trait", "for", "while", "if", "else", "return", "break", "continue", "const", "static", "pub", "unsafe", "extern", "crate", "super", "true", "false", "mut", "await", "abstract", "become", "do", "final", "macro", "override", "priv", "typeof", "unsized", "virtual", "yield"}
+
+
 def gen_errenum(k):
     iface = iface_name()
     borrowed = R.random() < 0.4
@@ -385,13 +388,17 @@ def gen_errenum(k):
             while True:
                 # now and then a name that the derive's generated code may use for its own locals
                 fn = R.choice(HYGIENE + ["map", "serializer", "deserializer", "seq", "key", "formatter", "visitor", "variant", "field", "state"]) if R.random() < 0.25 else snake(R.randint(1, 2))
+                # now and then a keyword, written as a raw identifier (its wire name is the identifier without `r#`)
+                if R.random() < 0.08:
+                    fn = R.choice(["type", "in", "match", "where", "ref", "move", "use", "fn", "loop", "as", "mod", "let", "box", "try", "async", "dyn"])
                 if fn not in fn_used and fn != "self":
                     fn_used.add(fn)
                     break
             pool = EFIELDS + (EFIELDS_B if borrowed else [])
             ty, gen, js = R.choice(pool)
             wire = (R.choice(["the", "x"]) + pascal(fn)) if R.random() < 0.35 else None
-            fields.append(dict(name=fn, ty=ty, gen=gen, js=js, wire=wire))
+            ident = ("r#" + fn) if fn in RUST_KEYWORDS else fn
+            fields.append(dict(name=fn, ident=ident, ty=ty, gen=gen, js=js, wire=wire))
         variants.append(dict(name=vn, fields=fields))
     if borrowed and not any("'a" in f["ty"] for v in variants for f in v["fields"]):
         borrowed = False
@@ -409,7 +416,7 @@ def err_module(e):
             for f in v["fields"]:
                 if f["wire"]:
                     s.append(f'        #[zlink(rename = "{f["wire"]}")]\n')
-                s.append(f'        {f["name"]}: {f["ty"]},\n')
+                s.append(f'        {f["ident"]}: {f["ty"]},\n')
             s.append("    },\n")
         else:
             s.append(f'    {v["name"]},\n')
@@ -430,11 +437,11 @@ def err_module(e):
             inits = []
             for f in v["fields"]:
                 if f["ty"] == "&'a str":
-                    inits.append(f'{f["name"]}: &f_{f["name"]}')
+                    inits.append(f'{f["ident"]}: &f_{f["name"]}')
                 elif f["ty"] == "Option<&'a str>":
-                    inits.append(f'{f["name"]}: f_{f["name"]}.as_deref()')
+                    inits.append(f'{f["ident"]}: f_{f["name"]}.as_deref()')
                 else:
-                    inits.append(f'{f["name"]}: f_{f["name"]}.clone()')
+                    inits.append(f'{f["ident"]}: f_{f["name"]}.clone()')
             s.append(f'            let value = E::{v["name"]} {{ {", ".join(inits)} }};\n')
         else:
             s.append(f'            let value = E::{v["name"]};\n')
